@@ -87,6 +87,7 @@ pub fn trace_and_verify(
         txns: t.txns.clone(),
         failed: t.failed.iter().map(|f| f.id).collect(),
         failed_recs: vec![],
+base_required: 0,
         plans: plans.clone(),
         probe_every,
         base_dir: None,
@@ -247,6 +248,8 @@ pub struct CrashStats {
     pub samples: Vec<J>,
     pub commits: usize,
     pub concurrent_traces: usize,
+    pub gen2_runs: u64,
+    pub gen2_images: u64,
 }
 
 /// Runs the crash-image campaign and reports the violations that belong to `prop`.
@@ -273,6 +276,8 @@ pub fn run_part_with(run: &mut Run, a: &Args, prop: &str, vlog: VlogMode) -> (u6
         samples: vec![],
         commits: 0,
         concurrent_traces: 0,
+        gen2_runs: 0,
+        gen2_images: 0,
     };
     let mine: BTreeSet<&str> = classes_of(prop).iter().cloned().collect();
     let mut reported = 0usize;
@@ -381,6 +386,114 @@ pub fn run_part_with(run: &mut Run, a: &Args, prop: &str, vlog: VlogMode) -> (u6
                 }
             }
         }
+        // ---- second generation: crash -> recover -> commit -> crash ----
+        // A few verified images of this trace become the starting directory of another traced
+        // run (its open = the recovery is traced too, so crash points inside recovery are
+        // enumerated); every image of that run must keep what the first recovery returned plus
+        // what the second session acknowledged.
+        let mut g2r = tr.fork(0x62);
+        let mut clean: Vec<(usize, usize)> = out
+            .results
+            .iter()
+            .filter(|r| r["problems"].as_array().map(|p| p.is_empty()).unwrap_or(false) && r["open_ok"].as_bool().unwrap_or(false) && r["prefix"].is_u64())
+            .map(|r| (r["idx"].as_u64().unwrap_or(0) as usize, r["prefix"].as_u64().unwrap_or(0) as usize))
+            .filter(|(i, n)| *i < plans.len() && *n > 0)
+            .collect();
+        for i in (1..clean.len()).rev() {
+            let j = g2r.usize(i + 1);
+            clean.swap(i, j);
+        }
+        for (gi, (idx, n)) in clean.into_iter().take(a.tier.pick(2, 5)).enumerate() {
+            let plan = &plans[idx];
+            let imgdir = scratch.join(format!("{}-g2img{}", name, gi));
+            let mut fs = t.base.clone();
+            for r in t.recs.iter().take(plan.upto + 1) {
+                fs.apply(&t.root, r);
+            }
+            if fs.write_image(&imgdir, &plan.loss).is_err() {
+                continue;
+            }
+            let mut w2 = e2_workload(&mut g2r, &cfg, a.tier.pick(20, 40), 1);
+            w2.first_txn = 100_000;
+            w2.nkeys = w.nkeys;
+            let name2 = format!("{}g{}", name, gi);
+            let t2 = match e2::run_worker(&scratch, &name2, &cfg, &w2, a.seed.wrapping_add(7000 + ti as u64 * 10 + gi as u64), None, Some(&imgdir)) {
+                Ok(t2) => t2,
+                Err(e) => {
+                    run.inconclusive(&format!("trace {} generation 2: {}", ti, e));
+                    let _ = std::fs::remove_dir_all(&imgdir);
+                    continue;
+                }
+            };
+            if let Some(e) = t2.worker_out["open_error"].as_str() {
+                if mine.contains("open") && reported < 6 {
+                    reported += 1;
+                    run.violation(&format!("[open] trace {} generation 2: the image after record {} ({:?}) opened in the verifier but not in the second-generation run: {}", ti, plan.upto, plan.loss, e), replay_json(t, &w, plan, idx));
+                }
+                let _ = std::fs::remove_dir_all(&imgdir);
+                let _ = std::fs::remove_dir_all(&t2.dir);
+                continue;
+            }
+            let mut combined: Vec<e2::TxnRec> = t.txns.iter().take(n).cloned().collect();
+            combined.extend(t2.txns.iter().filter(|x| x.first_seq > 0).cloned());
+            let mut pr = g2r.fork(gi as u64);
+            let plans2 = e2::plan_images(&t2, &mut pr, false, 1);
+            let job = Job {
+                trace_file: scratch.join(format!("{}.trace", name2)),
+                root: t2.root.clone(),
+                cfg: cfg.clone(),
+                txns: combined,
+                failed: t2.failed.iter().map(|f| f.id).collect(),
+                failed_recs: vec![],
+                base_required: n,
+                plans: plans2.clone(),
+                probe_every: a.tier.pick(13, 5),
+                base_dir: Some(imgdir.clone()),
+                keep_dir: None,
+            };
+            let jobfile = scratch.join(format!("{}.job.json", name2));
+            let _ = std::fs::write(&jobfile, serde_json::to_vec(&job.to_json()).unwrap());
+            let pool = e2::run_pool(&jobfile, plans2.len(), crate::campaign::threads());
+            for m in &pool.inconclusive {
+                run.inconclusive(&format!("trace {} generation 2: {}", ti, m));
+            }
+            st.gen2_runs += 1;
+            for res in &pool.results {
+                st.images += 1;
+                st.gen2_images += 1;
+                let i2 = res["idx"].as_u64().unwrap_or(0) as usize;
+                let p2 = &plans2[i2.min(plans2.len() - 1)];
+                if res["nontrivial"].as_bool().unwrap_or(false) {
+                    st.nontrivial += 1;
+                    if let Some(sg) = res["sig"].as_str() {
+                        st.sigs.insert(format!("{}|g2|{}", cfg.sig(), sg));
+                    }
+                }
+                if let Some(ps) = res["problems"].as_array() {
+                    for p in ps {
+                        let class = p[0].as_str().unwrap_or("");
+                        if mine.contains(class) && reported < 6 {
+                            reported += 1;
+                            let mut rj = replay_json(&t2, &w2, p2, i2);
+                            rj["generation"] = json!(2);
+                            rj["first_generation"] = replay_json(t, &w, plan, idx);
+                            run.violation(
+                                &format!(
+                                    "[{}] trace {} generation 2 (started from the image after record {} under {:?}, which had recovered {} transactions), crash after record {} ({}) model {:?}: {}",
+                                    class, ti, plan.upto, plan.loss, n, p2.upto, rec_short(&t2.recs[p2.upto]), p2.loss, p[1].as_str().unwrap_or("")
+                                ),
+                                rj,
+                            );
+                        }
+                    }
+                }
+            }
+            let _ = std::fs::remove_file(&jobfile);
+            let _ = std::fs::remove_file(scratch.join(format!("{}.trace", name2)));
+            let _ = std::fs::remove_file(scratch.join(format!("{}.out.json", name2)));
+            let _ = std::fs::remove_dir_all(&t2.dir);
+            let _ = std::fs::remove_dir_all(&imgdir);
+        }
         cleanup_keep(&scratch, &name);
     }
     let _ = std::fs::remove_dir_all(&scratch);
@@ -389,7 +502,7 @@ pub fn run_part_with(run: &mut Run, a: &Args, prop: &str, vlog: VlogMode) -> (u6
         json!({
             "traces": st.traces, "trace_records": st.trace_ops, "commits_traced": st.commits, "concurrent_committer_traces": st.concurrent_traces,
             "images_opened": st.images, "images_with_acknowledged_commits": st.nontrivial, "images_by_loss_model": st.by_loss,
-            "probe_commit_checks": st.probes, "open_failures": st.open_failures, "distinct_signatures": st.sigs.len(),
+            "probe_commit_checks": st.probes, "open_failures": st.open_failures, "second_generation_runs": st.gen2_runs, "second_generation_images": st.gen2_images, "distinct_signatures": st.sigs.len(),
             "samples": st.samples.clone(),
         }),
     );
